@@ -105,3 +105,8 @@ func crashEnd() bool   { return false }
 
 // FSOps is the number of file-system mutations executed inside the last Crashable.
 func FSOps() int { return 0 }
+
+// Tick lets file modification times move on between two writes (natively a
+// short sleep: modification times have the granularity of the kernel clock
+// tick; the ghost file system moves mtime on every modification anyway).
+func Tick() {}
